@@ -16,7 +16,7 @@ tvars == <<vars, l>>
 
 ToSet(s) == {s[j] : j \in 1..Len(s)}
 RouteOf(e) == [file |-> e.route.file, env |-> e.route.env, prog |-> e.route.prog, hasFile |-> e.route.hasFile,
-               ival |-> e.route.ival, ivalBy |-> e.route.ivalBy, idfile |-> e.route.idfile]
+               ival |-> e.route.ival, ivalBy |-> e.route.ivalBy, idfile |-> e.route.idfile, entry |-> e.route.entry]
 
 Fail(kind, e, name) == PrintT(<<"FAIL", kind, e.t, l, e.a, name>>)
 Chk(ok, kind, e, name) == IF ok THEN TRUE ELSE Fail(kind, e, name)
@@ -25,25 +25,37 @@ BindObs(e) ==
   /\ route' = RouteOf(e)
   /\ enabled' = e.st.enabled /\ collector' = e.st.collector /\ userData' = e.st.userData
   /\ sent' = e.st.sent /\ keys' = ToSet(e.st.keys) /\ hdrs' = ToSet(e.st.hdrs) /\ leaks' = ToSet(e.st.leaks)
-  /\ idsOK' = e.st.idsOK
+  /\ idsOK' = e.st.idsOK /\ aged' = e.st.aged
 
 \* the interval timer is real: a slow machine may let more than one interval
 \* elapse inside one step, so the conformance level accepts "at least one more"
 AtLeastOne == sent' > sent /\ keys' = PayloadKeys /\ hdrs' = SentHeaders /\ leaks' = leaks /\ idsOK' = idsOK
 StartLike ==
   /\ collector' = (enabled /\ route.idfile = "ok") /\ (IF collector' THEN AtLeastOne ELSE Silent)
-  /\ UNCHANGED <<route, enabled, userData>>
+  /\ UNCHANGED <<route, enabled, userData, aged>>
+\* command line entry point: main.start loads the configuration AND starts the server in one go, so the
+\* harness's LoadConfig step already includes the start (the first beacon may be out)
+CliLoadLike ==
+  /\ phase = "init" /\ enabled' = DocEnabled(route)
+  /\ (IF sent' > sent THEN AtLeastOne ELSE Silent)
+  /\ UNCHANGED <<route, userData, aged>>
+CliStartLike ==
+  /\ phase = "loaded" /\ collector' = enabled
+  /\ (IF sent' > sent THEN AtLeastOne ELSE Silent) /\ (collector' => sent' > 0)
+  /\ UNCHANGED <<route, enabled, userData, aged>>
 TickLike ==
   /\ (IF running THEN AtLeastOne ELSE Silent)
-  /\ UNCHANGED <<route, enabled, collector, userData>>
+  /\ UNCHANGED <<route, enabled, collector, userData, aged>>
 \* an interval may also expire while another step is being executed
 MaybeMore == IF running /\ sent' > sent THEN AtLeastOne ELSE Silent
-UserDataLike == phase = "started" /\ userData' = TRUE /\ MaybeMore /\ UNCHANGED <<route, enabled, collector>>
-StopLike == phase = "started" /\ MaybeMore /\ UNCHANGED <<route, enabled, collector, userData>>
+UserDataLike == phase = "started" /\ userData' = TRUE /\ MaybeMore /\ UNCHANGED <<route, enabled, collector, aged>>
+StopLike == phase = "started" /\ MaybeMore /\ UNCHANGED <<route, enabled, collector, userData, aged>>
+AgeLike == phase = "started" /\ aged' = TRUE /\ MaybeMore /\ UNCHANGED <<route, enabled, collector, userData>>
 
 ImplOf(e) ==
-  CASE e.a = "LoadConfig" -> DoLoadConfig
-    [] e.a = "Start" -> phase = "loaded" /\ StartLike
+  CASE e.a = "LoadConfig" -> IF route.entry = "cli" THEN CliLoadLike ELSE DoLoadConfig
+    [] e.a = "Age" -> AgeLike
+    [] e.a = "Start" -> IF route.entry = "cli" THEN CliStartLike ELSE phase = "loaded" /\ StartLike
     [] e.a = "UserData" -> UserDataLike
     [] e.a = "Tick" -> TickLike
     [] e.a = "Stop" -> StopLike
@@ -53,7 +65,7 @@ ImplOf(e) ==
 TraceInit ==
   /\ route = RouteOf(Trace[1])
   /\ phase = "init" /\ enabled = TRUE /\ collector = FALSE /\ running = FALSE
-  /\ userData = FALSE /\ sent = 0 /\ keys = {} /\ hdrs = {} /\ leaks = {} /\ idsOK = TRUE
+  /\ userData = FALSE /\ sent = 0 /\ keys = {} /\ hdrs = {} /\ leaks = {} /\ idsOK = TRUE /\ aged = FALSE
   /\ l = 2
 
 TraceNext ==
@@ -71,6 +83,7 @@ TraceNext ==
                      [] OTHER -> running
      /\ Chk(e.obs.err = "", "C", e, "step-error")
      /\ Chk(C19_Silent', "P", e, "C19_Silent")
+     /\ Chk(C19_NoCollector', "P", e, "C19_NoCollector")
      /\ Chk(C19_Whitelist', "P", e, "C19_Whitelist")
      /\ Chk(C19_NoLeak', "P", e, "C19_NoLeak")
      /\ Chk(C19_InstanceId', "P", e, "C19_InstanceId")
